@@ -333,7 +333,9 @@ def assemble_item(d, info, src, srcfile_label, log):
             # textual type substitution anywhere in the item (a generic instance replaced by its prelude model);
             # optsubst: the instance may be absent (nothing to replace then)
             optional = o.startswith("optsubst(")
-            frm, to = [x.strip() for x in o[(9 if optional else 6):-1].split("=>")]
+            body_ = o[(9 if optional else 6):-1]
+            # `frm ===> to` for text that itself contains `=>` (match arms); otherwise `frm => to`
+            frm, to = [x.strip() for x in (body_.split("===>") if "===>" in body_ else body_.split("=>"))]
             hits = list(re.finditer(ws_tolerant(frm), src[start:end]))
             if not hits and optional:
                 continue
